@@ -1605,18 +1605,21 @@ def preprocess_arg(arg: ColExpr, table: Table, *, agg_is_window: bool = True) ->
                 "use in pydiverse.transform"
             )
 
-        if (
-            agg_is_window
-            and isinstance(expr, ColFn)
-            and "partition_by" not in expr.context_kwargs
-            and (expr.op.ftype in (Ftype.WINDOW, Ftype.AGGREGATE))
-        ):
-            expr.context_kwargs["partition_by"] = [table._cache.cols[uid] for uid in table._cache.partition_by]
-
         if isinstance(expr, ColName):
             return table[expr.name]
 
         new = copy.copy(expr)
+        if (
+            agg_is_window
+            and isinstance(new, ColFn)
+            and "partition_by" not in new.context_kwargs
+            and (new.op.ftype in (Ftype.WINDOW, Ftype.AGGREGATE))
+        ):
+            # The expression object passed by the user must not be modified: it may be
+            # used again under a different grouping state.
+            new.context_kwargs = new.context_kwargs | {
+                "partition_by": [table._cache.cols[uid] for uid in table._cache.partition_by]
+            }
         new.map_children(
             functools.partial(
                 _preprocess_expr,
